@@ -7,6 +7,8 @@ import os, math, json
 from fractions import Fraction
 import vlib
 
+# theorems about the renumbering model Renumber.v that belong to this property (its correspondence runs with C02: props/xcm.py)
+EXTRA_PROPERTY_FILES = ["C09_bandwidth"]
 LEVEL = "proof"
 COQ_MODULES = ["Sparse", "CSparse"]
 ASSUMPTIONS = [
@@ -74,8 +76,10 @@ def gen_spd(rng, with_constraints):
         if rng.random() < 0.3:
             w *= grade
         contrib += [("addto", w, i, i), ("addto", w, j, j), ("addto", -w, i, j) if rng.random() < 0.5 else ("addto", -w, j, i)]
+    touched = set(i for e in edges for i in e)
     for i in range(n):
-        if rng.random() < 0.5 or i == 0:
+        # (a node without any element would leave an empty row: singular system, excluded)
+        if rng.random() < 0.5 or i == 0 or i not in touched:
             contrib.append(("addto", abs(rnd(rng)) + 0.05, i, i))
     rng.shuffle(contrib)
     truebw = max([j - i for (i, j) in edges] + [0])
